@@ -21,6 +21,12 @@ static void fill_src(void) { SRC[0].text = "#"; SRC[0].bol = 1; SRC[1].text = "i
 static TS SRC[NSRC];
 static void fill_src(void) { SRC[0].text = "#"; SRC[0].bol = 1; SRC[1].text = "ifdef"; SRC[1].bol = 0; SRC[2].text = "A"; SRC[2].bol = 0; SRC[3].text = "m0"; SRC[3].bol = 1; SRC[4].text = "#"; SRC[4].bol = 1; SRC[5].text = "ifndef"; SRC[5].bol = 0; SRC[6].text = "B"; SRC[6].bol = 0; SRC[7].text = "m1"; SRC[7].bol = 1; SRC[8].text = "#"; SRC[8].bol = 1; SRC[9].text = "else"; SRC[9].bol = 0; SRC[10].text = "m2"; SRC[10].bol = 1; SRC[11].text = "#"; SRC[11].bol = 1; SRC[12].text = "endif"; SRC[12].bol = 0; SRC[13].text = "m3"; SRC[13].bol = 1; SRC[14].text = "#"; SRC[14].bol = 1; SRC[15].text = "else"; SRC[15].bol = 0; SRC[16].text = "m4"; SRC[16].bol = 1; SRC[17].text = "#"; SRC[17].bol = 1; SRC[18].text = "endif"; SRC[18].bol = 0; SRC[19].text = "m5"; SRC[19].bol = 1; }
 #define NV 2
+#elif SCEN == 3
+// #if A / m0 / #elif B / m1 / #else / m2 / #endif / m3
+#define NSRC 14
+static TS SRC[NSRC];
+static void fill_src(void) { char *t[NSRC] = {"#","if","A","m0","#","elif","B","m1","#","else","m2","#","endif","m3"}; int b[NSRC] = {1,0,0,1,1,0,0,1,1,0,1,1,0,1}; for (int i = 0; i < NSRC; i++) { SRC[i].text = t[i]; SRC[i].bol = b[i]; } }
+#define NV 2
 #elif SCEN == 9
 #define NSRC 1
 static TS SRC[NSRC];
@@ -43,17 +49,15 @@ static long val_of(Token *tok) {   /* the controlling value of the directive who
   for (int k = i; k < NTK && k < i + 3; k++) { if (SRC[k].text[0] == 'A' && !SRC[k].text[1]) return VAL[0]; if (SRC[k].text[0] == 'B' && !SRC[k].text[1]) return VAL[1]; if (SRC[k].text[0] == 'C' && !SRC[k].text[1]) return VAL[2]; }
   return 0;
 }
-static long eval_const_expr(Token **rest, Token *tok)
-__CPROVER_requires(rest != 0)
-__CPROVER_assigns(*rest)
-__CPROVER_ensures(__CPROVER_return_value == val_of(tok) && *rest == &T[next_line(idx_of(tok))]);
-static Macro *find_macro(Token *tok)
-__CPROVER_assigns()
-__CPROVER_ensures((__CPROVER_return_value != 0) == (val_of(tok) != 0));
-static bool expand_macro(Token **rest, Token *tok)
-__CPROVER_assigns()
-__CPROVER_ensures(__CPROVER_return_value == 0);
+// stand-ins with bodies (calls are redirected to them by goto-instrument --replace-calls), so that the token pointers
+// they hand back stay concrete for the symbolic execution
+long stub_eval_const_expr(Token **rest, Token *tok) { *rest = &T[next_line(idx_of(tok))]; return val_of(tok); }
+Macro STUBM;
+Macro *stub_find_macro(Token *tok) { return val_of(tok) != 0 ? &STUBM : (Macro *)0; }
+bool stub_expand_macro(Token **rest, Token *tok) { return 0; }
 long nondet_long_(void);
+// the skeletons are well-formed: reaching a diagnostic is itself a failure (e.g. a bogus "stray #else")
+void error_tok(Token *tok, char *fmt, ...) { OBLIGE(0, "C10.3 a well-formed conditional skeleton is not diagnosed"); ASSUME(0); }
 void harness(void) {
   fill_src();     /* statics are nondeterministic under the contract instrumentation: the skeleton is written at run time */
 #if SCEN == 9
@@ -71,6 +75,9 @@ void harness(void) {
   _Bool want[8] = {0};
 #if SCEN == 0
   want[0] = !a; want[1] = a; want[2] = 1; want[3] = b;
+  const int nm = 4;
+#elif SCEN == 3
+  want[0] = a; want[1] = !a && b; want[2] = !a && !b; want[3] = 1;
   const int nm = 4;
 #elif SCEN == 1
   want[0] = a; want[1] = a && !b; want[2] = a && b; want[3] = a; want[4] = !a; want[5] = 1;
